@@ -21,6 +21,9 @@ type Case struct {
 type Named struct {
 	S      *Scenario
 	Params any
+	// Bound overrides Drive's maxBound for this scenario when UseBound is set (<0 = unbounded).
+	Bound    int
+	UseBound bool
 }
 
 // Drive explores every scenario with iterative deviation bounding 0..maxBound (maxBound<0: a single
@@ -52,6 +55,10 @@ func Drive(r *vlib.R, scenarios []Named, maxBound int, lookup func(c Case) *Scen
 		s := ns.S
 		if err := CheckDeterminism(s); err != nil {
 			r.T.Fatalf("HARNESS-ERROR scenario %s: %v", s.Name, err)
+		}
+		maxBound := maxBound
+		if ns.UseBound {
+			maxBound = ns.Bound
 		}
 		bounds := []int{}
 		if maxBound < 0 {
